@@ -2,7 +2,7 @@
    [run opcode argument].  Extracted to OCaml (bin/dlms_model) and also evaluated in the
    kernel by generated cases files.  Opcode names are parsed from the comments below by
    harness/lib.py — keep the format  "| <n> (* <name> *) =>". *)
-From Dlms Require Import Base CrcModel CrcSpec FieldsModel FieldsSpec AddrModel AddrSpec WrapperModel WrapperProofs TimeModel TimeProofs.
+From Dlms Require Import Base CrcModel CrcSpec FieldsModel FieldsSpec AddrModel AddrSpec WrapperModel WrapperProofs TimeModel TimeProofs AxdrModel AxdrSpec AxdrProofs.
 
 Definition v_bools (l : list bool) : V := VList (map VBool l).
 Definition as_bools (v : V) : list bool := map as_b (as_list v).
@@ -34,6 +34,39 @@ Definition as_cstat (v : V) : cstat := (as_b (arg 0 v), as_b (arg 1 v), as_b (ar
 Definition as_opt_cstat (v : V) : option cstat := if is_none v then None else Some (as_cstat v).
 Definition v_date3 (x : date3) : V := let '(y, m, d) := x in VList [VN y; VN m; VN d].
 Definition v_time4 (x : time4) : V := let '(h, mi, s, us) := x in VList [VN h; VN mi; VN s; VN us].
+
+Fixpoint v_pv (p : pv) : V :=
+  match p with
+  | PNone => VNone | PBool b => VBool b | PInt z => VInt z | PBytes l => VBytes l
+  | PList l => VList ((fix go (l : list pv) : list V := match l with [] => [] | x :: r => v_pv x :: go r end) l)
+  | PDateTime x st => VList [VBytes [100; 116]; v_dtime x; v_cstat st]
+  | PDate d => VList (VBytes [100] :: match v_date3 d with VList l => l | _ => [] end)
+  | PTime t => VList (VBytes [116] :: match v_time4 t with VList l => l | _ => [] end)
+  end.
+(* value trees as V: [tag; payload...] *)
+Fixpoint as_data (v : V) : data :=
+  match v with
+  | VList [VInt 0] => DNull
+  | VList [VInt 3; VBool b] => DBool b
+  | VList [VInt 15; VInt z] => DI8 z
+  | VList [VInt 16; VInt z] => DI16 z
+  | VList [VInt 5; VInt z] => DI32 z
+  | VList [VInt 20; VInt z] => DI64 z
+  | VList [VInt 17; VInt z] => DU8 (Z.to_N z)
+  | VList [VInt 18; VInt z] => DU16 (Z.to_N z)
+  | VList [VInt 6; VInt z] => DU32 (Z.to_N z)
+  | VList [VInt 21; VInt z] => DU64 (Z.to_N z)
+  | VList [VInt 22; VInt z] => DEnum (Z.to_N z)
+  | VList [VInt 9; VBytes l] => DOctets l
+  | VList [VInt 25; x; st] => DDateTime (as_dtime x) (as_cstat st)
+  | VList [VInt 26; VInt y; VInt m; VInt d] => DDate (Z.to_N y, Z.to_N m, Z.to_N d)
+  | VList [VInt 27; VInt h; VInt mi; VInt s; VInt hu] => DTime (Z.to_N h) (Z.to_N mi) (Z.to_N s) (Z.to_N hu)
+  | VList [VInt 1; VList ch] =>
+      DArray ((fix go (l : list V) : list data := match l with [] => [] | x :: r => as_data x :: go r end) ch)
+  | VList [VInt 2; VList ch] =>
+      DStruct ((fix go (l : list V) : list data := match l with [] => [] | x :: r => as_data x :: go r end) ch)
+  | _ => DNull
+  end.
 
 Definition run (op : N) (a : V) : V :=
   match op with
@@ -109,5 +142,20 @@ Definition run (op : N) (a : V) : V :=
   | 74 (* date_to_bytes *) => v_res VBytes (date_to_bytes (as_n (arg 0 a), as_n (arg 1 a), as_n (arg 2 a)))
   | 75 (* time_to_bytes *) => v_res VBytes (time_to_bytes (as_n (arg 0 a), as_n (arg 1 a), as_n (arg 2 a), as_n (arg 3 a)))
   | 76 (* spec_datetime *) => VBytes (std_datetime (as_dtime (arg 0 a)) (as_cstat (arg 1 a)))
+  (* ---- DLMS data codec (C14) ---- *)
+  | 80 (* parse_as_dlms_data *) => v_res v_pv (parse_as_dlms_data (as_bytes a))
+  | 81 (* axdr_get_len *) => v_res (fun x => VList [VN (fst x); VBytes (snd x)]) (get_len (as_bytes a))
+  | 82 (* decode_variable_integer *) =>
+      v_res (fun x => VList [VN (fst x); VBytes (snd x)]) (decode_variable_integer (as_bytes a))
+  | 83 (* encode_variable_integer *) => v_res VBytes (encode_variable_integer (as_n a))
+  | 84 (* enc_octet_string *) => v_res VBytes (enc_octet_string (as_bytes a))
+  | 85 (* enc_double_long_unsigned *) => v_res VBytes (enc_double_long_unsigned (as_n a))
+  | 86 (* enc_integer *) => v_res VBytes (enc_integer (as_z a))
+  | 87 (* enc_unsigned_long *) => v_res VBytes (enc_unsigned_long (as_n a))
+  | 88 (* enc_capture_object *) =>
+      v_res VBytes (enc_capture_object (as_n (arg 0 a)) (as_bytes (arg 1 a)) (as_z (arg 2 a)) (as_n (arg 3 a)))
+  | 89 (* spec_encode *) => VBytes (std_encode (as_data a))
+  | 90 (* spec_py *) => v_pv (of_spec (py (as_data a)))
+  | 91 (* spec_data_ok *) => VBool (data_ok (as_data a))
   | _ => bad_args
   end.
